@@ -78,7 +78,7 @@ def check_fixed(case, ctx):
     fixed = {k: values[k] for k in fixed_names}
     # location-like fixed values must lie below the data
     loc = LOC_PARAM.get(family)
-    if loc in fixed:
+    if loc in fixed and not (fixed[loc] == 0 and data.min() > 0):  # a location fixed at exactly 0 is kept (boundary value)
         fixed[loc] = float(case["loc_frac"] * data.min()) if data.min() > 0 else float(data.min() - abs(case["loc_frac"]) - 0.1)
     start = {k: v for k, v in case["start"].items() if k not in fixed}
     if loc in start:
@@ -194,7 +194,14 @@ def strat_fixed(tier):
     @st.composite
     def s(draw):
         family, fixed_names, method = draw(st.sampled_from(CELLS))
-        values = draw(fam.PLAUSIBLE[family]())
+        values = dict(draw(fam.PLAUSIBLE[family]()))
+        # boundary values a user may legitimately fix: 0 for location-like parameters, 1 for scales / shapes
+        for k in fixed_names:
+            if draw(st.integers(0, 3)) == 0:
+                if k in ("mu", "loc", "gamma") and family != "LogNormalNormFit":
+                    values[k] = draw(st.sampled_from([0.0, 0, -0.0]))
+                elif k in POSITIVE.get(family, []):
+                    values[k] = draw(st.sampled_from([1.0, 1]))
         start = draw(fam.PLAUSIBLE[family]())
         weights = None
         if method == "wlsq":
